@@ -1,10 +1,17 @@
 """Stringify a Python object ready for output in a Liquid template."""
+from __future__ import annotations
+
+from typing import TYPE_CHECKING
 from typing import Any
+from typing import Optional
 
 from liquid import Markup
 from liquid import escape
 from liquid import soft_str
 from liquid.exceptions import LiquidValueError
+
+if TYPE_CHECKING:
+    from liquid.token import Token
 
 
 def to_liquid_string(val: Any, autoescape: bool) -> str:
@@ -24,7 +31,10 @@ def to_liquid_string(val: Any, autoescape: bool) -> str:
         except ValueError as err:
             raise LiquidValueError(str(err), token=None) from err
     elif isinstance(val, range):
-        val = f"{val.start}..{val.stop - 1}"
+        try:
+            val = f"{val.start}..{val.stop - 1}"
+        except ValueError as err:
+            raise LiquidValueError(str(err), token=None) from err
     else:
         try:
             val = str(val)
@@ -37,3 +47,14 @@ def to_liquid_string(val: Any, autoescape: bool) -> str:
 
     assert isinstance(val, str)
     return val
+
+
+def to_python_string(val: object, *, token: Optional[Token]) -> str:
+    """Return `str(val)`, or raise a `LiquidValueError` if _val_ can't be converted.
+
+    For example, an int with more digits than `sys.get_int_max_str_digits()`.
+    """
+    try:
+        return str(val)
+    except ValueError as err:
+        raise LiquidValueError(str(err), token=token) from err
